@@ -65,6 +65,11 @@ class OPAdapter(RoutingAdapter):
     reward_td = "reset"
     shard = 60
     tiny = 5
+    # keys of the step output compared with the row model after every step in C02 / C04 (Harness/HOP.v book_obs)
+    book_keys = (("i", "int"), ("current_node", "int"), ("tour_length", "f"), ("current_total_prize", "f"), ("visited", "bits"))
+    book_fn = "check_book"
+    book_type = "op_book"
+    _defer_batches = True        # one batched-checker stage for the corrupted and the hand-built lists together (extra_c06)
 
     def __init__(self):
         self._cache = []
@@ -303,6 +308,13 @@ class OPAdapter(RoutingAdapter):
             ok = all(D[a][0] <= D[a][b] + D[b][0] for a in range(m) for b in range(m))
             ctx.count("op/tri0_hypothesis_%s" % ("holds" if ok else "fails(float-rounded distances; outside the corollary, inside the prefix form)"))
         return out
+
+    # ---------------------------------------------------------------- hand-built action lists and batches (C03)
+    def extra_c03(self, ctx, tier, items):
+        """get_reward on what the mask-made rollouts never hand it (vt/envs/_handsol.py): lists not closed by a depot visit,
+        one-column action tensors ([[0]], [[j]]) and BATCHES of them mixing [0] with [j] -- the `(actions == 0).all()` guard
+        of the all-tours-have-length-1 shortcut: the call must raise or give every row the prize of its own list"""
+        return _handsol.check_rewards(self, ctx, tier, _handsol.reward_batches(ctx.rng, items, tier))
 
     # ---------------------------------------------------------------- hand-built solutions (C06)
     def extra_c06(self, ctx, tier, items):
